@@ -10,6 +10,7 @@ use std::cell::RefCell;
 thread_local! {
     static HOOK: RefCell<Option<Box<dyn Fn()>>> = const { RefCell::new(None) };
     static INNER_HOOK: RefCell<Option<Box<dyn Fn()>>> = const { RefCell::new(None) };
+    static WEAK_FAIL_HOOK: RefCell<Option<Box<dyn Fn() -> bool>>> = const { RefCell::new(None) };
 }
 
 /// Installs (or removes) the scheduler hook of the current thread.
@@ -40,6 +41,21 @@ pub fn inner_yield_point() {
             f()
         }
     });
+}
+
+/// Installs (or removes) the hook asked, right before every hooked `compare_exchange_weak`, whether THIS attempt fails
+/// spuriously (as the hardware's load-linked / store-conditional may): if it answers `true` the exchange is not
+/// attempted and `Err(current value)` is returned. Without it a hooked `compare_exchange_weak` is the strong form.
+pub fn set_weak_fail_hook(hook: Option<Box<dyn Fn() -> bool>>) {
+    WEAK_FAIL_HOOK.with(|h| *h.borrow_mut() = hook);
+}
+
+/// Called by a hooked `compare_exchange_weak` after its yield point.
+pub fn weak_fail_point() -> bool {
+    WEAK_FAIL_HOOK.with(|h| match h.borrow().as_ref() {
+        Some(f) => f(),
+        None => false,
+    })
 }
 
 /// One hooked atomic operation as it was performed: `kind` is one of `load`, `store`, `cas`
@@ -86,7 +102,7 @@ fn observe(kind: &'static str, cell: usize, wide: bool, old: u64, new: u64, ok: 
 
 /// Drop-in replacements for the std atomics used by the budget and limit algorithms.
 pub mod atomic {
-    use super::{inner_yield_point, observe, yield_point};
+    use super::{inner_yield_point, observe, weak_fail_point, yield_point};
     pub use std::sync::atomic::Ordering;
 
     macro_rules! hooked_atomic {
@@ -124,7 +140,8 @@ pub mod atomic {
                     yield_point();
                     self.cas_observed(current, new, s, f)
                 }
-                /// Always the strong form under the hook: no spurious failures.
+                /// The strong form under the hook, unless the weak-failure hook says that this attempt fails
+                /// spuriously: then nothing is exchanged and the current value is returned as the error.
                 pub fn compare_exchange_weak(
                     &self,
                     current: $int,
@@ -133,6 +150,11 @@ pub mod atomic {
                     f: Ordering,
                 ) -> Result<$int, $int> {
                     yield_point();
+                    if weak_fail_point() {
+                        let now = self.0.load(f);
+                        observe("cas", self.addr(), Self::WIDE, now as u64, now as u64, false);
+                        return Err(now);
+                    }
                     self.cas_observed(current, new, s, f)
                 }
                 fn addr(&self) -> usize {
